@@ -111,6 +111,10 @@ SIBLINGS = {
     'C01-r8-2': ['C01', 'C02'],   # the 26th generated name repeats the first: non-injective renaming (C02)
     'C11-r8-1': ['C11', 'C14'],   # a missing file behind a nested require() no longer fails the build (nothing fails, so C11 has nothing to judge): C14's last sentence
     'C19-r7-3': ['C19', 'C20'],
+    'C09-r11-1': ['C09', 'C07', 'C08'],   # a numeral directly followed by a keyword (`10do`, `1then`) is rejected by the lexer: a valid program does not load (C07/C08); C09 itself says INCONCLUSIVE
+    'C01-r11-1': ['C01', 'C19'],   # code behind a header block comment on its line disappears from luamin output: code/comment confusion at the header is C19's oracle
+    'C19-r11-1': ['C19', 'C03', 'C15'],   # the .p8 reader cuts lines at form feed / vertical tab: the cart does not come back from its file (C03) / bytes 11, 12 in context (C15)
+    'C06-r11-2': ['C06', 'C14'],   # build moves the main file's first comment lines above the packages: "ends with the main program unchanged, preceded by the loader" is C14's
     'C02-r10-1': ['C02', 'C01'],   # an identifier glued to the hex numeral before it: two tokens fuse (C01); C02 cannot align such output and says INCONCLUSIVE
     'C09-r10-2': ['C09', 'C07', 'C08'],   # the lexer rejects "\255": a valid program is rejected (C07 / C08); C09's own run says INCONCLUSIVE (its programs are rejected)
     'C01-r10-2': ['C01', 'C02'],   # an API name used as a field is renamed in one place and kept in another: the renaming relation is C02's oracle
@@ -133,6 +137,15 @@ NOT_A_VIOLATION = {
                 '(PICO-8\'s line-wise expansion of `a += b`) a compound assignment ends with its line, so such a program is outside the domain',
     'C20-r7-1': 'only affects directive lines with other text after the name (`#include x.lua // note`); the statement speaks of `#include NAME` '
                 'lines and does not say what trailing text means',
+    'C09-r11-2': 'only affects a short-form if that is followed on its line by the `end` of an enclosing one-line block (`for ... do if (c) x() end`); '
+                 'in the dialect of Appendix A a short-if runs to the end of its line, so such a line is not a program of the dialect (PICO-8 '
+                 'itself would give the `end` to the short-if)',
+    'C10-r11-1': 'only affects a short-form if whose parenthesised condition is continued on the next line; a short-if is a one-line construct '
+                 '(PICO-8 rewrites it line by line), so that input is outside the dialect of Appendix A',
+    'C01-r11-3': 'only affects a multi-line block comment standing INSIDE a short-if / `?` line; Appendix A excludes tokens that span lines from '
+                 'line scopes (what such a line means to PICO-8\'s line-based rewriting is not defined)',
+    'C18-r11-1': 'only affects a Game one of whose regions is SHORTER than its slot in the memory map (Gff.from_lines([one line])); like the '
+                 'over-long regions of C18-r10-1/-3 that is not a cart whose regions have the sizes C18 says they keep',
     'C18-r10-1': 'only affects a Game one of whose regions is LONGER than its slot in the memory map (a .p8 whose __map__ section has 64 rows, which '
                  'neither PICO-8 nor picotool writes); C18 speaks of regions that have, and keep, their memory-map size - for a region that '
                  'overlaps its neighbours\' addresses "the addressed bytes" are not defined',
